@@ -16,6 +16,8 @@ Contracts (from the property statement and Octez `Signature`), on the real funct
   Key.verify(signature, message)
     raises    ValueError  on any altered message / altered signature (raw bit or byte, base58
               character) / different key / signature prefix of another curve; never returns True there
+    ensures   the verdict is a function of (key, signature, message) alone: the same in every position of a
+              sequence of sign / verify / CHECK_SIGNATURE calls on the same or other key objects
     ensures   accepts signatures recorded from octez-client (digest discipline independent of sign)
   CHECK_SIGNATURE                                             [michelson/instructions/crypto.py]
     ensures   pushes True iff Key.verify returns True, False iff it raises ValueError
@@ -64,10 +66,16 @@ def run(ck: Check) -> int:
             'ascii, 32, 1000 bytes; thorough adds hex-looking and 64 bytes) x {specific, generic} x {bytes, hex, 0x-hex}; per signature: '
             'bit/byte alterations of message, raw signature, base58 text and public key, all other keys of the set, '
             'prefix/curve mismatches; class = (curve, generic, form | alteration target:operation, clause)')
+    ck.rule('R (widened): every message length 0..69, 127..129, 255..257 (sign / verify / independent verifier / CHECK_SIGNATURE); '
+            'upper-case hex strings with and without 0x; the signature argument as bytes; P-256 signatures whose r resp. s has a '
+            'leading zero byte; per curve a fixed interleaving of sign / verify / CHECK_SIGNATURE calls on purpose-built key objects '
+            '(rejected-then-accepted, accepted-then-rejected, other key in between, generic after specific, key with and without the '
+            'secret part, repeated requests) - every verdict must be the one the triple has on its own')
     chunks = K.enumerate_cases(ck.tier, ck.seed)
     ck.bound('chunks', len(chunks))
     ck.bound('elementary_cases', sum(len(c) for c in chunks))
     ck.bound('keys_per_curve', '4 (BLS 2) quick / 8 (BLS 2) thorough')
+    ck.bound('call_sequences', 'ed/sp/p2: 2 sequences of 4 sign + 16 verify + 6 CHECK_SIGNATURE calls; BLS quick: 1 sequence of 2 sign + 3 verify + 2 CHECK_SIGNATURE')
     ck.bound('bls_quick_selection', 'py_ecc budget: (recorded key, b"test") with one representative per alteration target, '
              '(scalar 1, b"") sign + one rejection; the thorough tier runs the full alteration lists for 2 keys x 3 messages')
     results = CC.pmap(K.eval_chunk, chunks)
